@@ -117,6 +117,11 @@ def catalogue():
         "uninterleave(y) evens": (lambda L, c: E.uninterleave(L, c)[0], 2, 0, ""),
         "slice from 1 step 2 (index)": (lambda L, c: E.index(L, [1, None, 2], c), 2, 2, ""),
         "truthy indices(T)": (lambda L, c: E.truthy_indices(L, c), 1, 1, "vd"),
+        # the infinite list as the SECOND operand: remove from a finite list what occurs in the (increasing) infinite one
+        "filter out(F) members of the infinite list": (lambda L, c: E.vy_filter([3, 4, 6, 8, 9, 12], L, c), 0, 8, "src ni nodiff"),
+        "contains(c) probes": (lambda L, c: E.vy_map([3, 4, 12], (lambda x: E.contains(L, x, c)), c), 0, 8, "src ni nodiff"),
+        "zip(Z) finite first": (lambda L, c: E.vy_zip([7, 8], L, c), 1, 0, ""),
+        "interleave(Y) with a string": (lambda L, c: E.interleave(L, "ab", c), 1, 0, "ni"),
     }
 
 
@@ -124,8 +129,10 @@ def well_defined(names, cat):
     """A value-dependent stage is only judged on a stream of distinct truthy items."""
     dirty = False
     linear = False  # the stream is an arithmetic progression (indices): its deltas are constant
-    for nm in names:
+    for pos, nm in enumerate(names):
         fl = cat[nm][3]
+        if "src" in fl and pos > 0:
+            return False  # needs the increasing integer source itself (membership search on an infinite list)
         if "vd" in fl and dirty:
             return False
         if "ni" in fl:
@@ -245,6 +252,10 @@ def check(part, names, n, mode, cat):
     if pulls > bound:
         part.violation("lazy", case, "more items pulled from the source than the fixed linear bound",
                        tags, "pulls <= %d" % bound, "%d pulls" % pulls, size=size)
+        return
+    if any("nodiff" in cat[nm][3] for nm in names):
+        # membership on an infinite list is a monotone search whose answer depends on what is already cached; what it answers is
+        # not this property's business (only that it terminates within the bound)
         return
     # differential oracle: the same pipeline on a finite list long enough to contain everything that was pulled
     tstatus, tval = run_twin(names, n, mode, cat, budget)
